@@ -7,6 +7,8 @@ REGISTRY = {
     'C05': 'harness.c05',
     'C10': 'harness.session',
     'C11': 'harness.fitkernel',
+    'C13': 'harness.c13',
+    'C14': 'harness.c14',
     'C18': 'harness.session',
     'C19': 'harness.c19',
     'C20': 'harness.c20',
